@@ -90,12 +90,17 @@ func C11URIMoves(what string, buf []byte, f sipsp.PField, moves []int) (res stri
 	if v, ok := viewOf(&u, buf); !ok || !v.eq(orig) {
 		return fmt.Sprintf("%s URI %q relocated to its place %d in the receive buffer denotes other bytes", what, txt, f.Offs)
 	}
-	// 2. the buffer moves
+	// 2. the buffer moves; always including the last admissible position (the URI ends exactly
+	// at the 65,535 addressing limit)
+	moves = append([]int{65535 - len(txt)}, moves...)
 	for i, np := range moves {
-		if np < 0 || np+len(txt)+3 > 65535 {
+		if np < 0 || np+len(txt) > 65535 {
 			continue
 		}
 		span := len(txt) + i%3 // exact, or with slack
+		if np+span > 65535 {
+			span = len(txt)
+		}
 		if i == len(moves)-1 && len(txt) > 5 {
 			// finally a span that is too short: must be refused, structure untouched
 			if d := step(np, len(txt)-1-i%2); d != "" {
